@@ -378,7 +378,7 @@ def check_scrub_release_extent_sum(ctx, inst):
         if not ok:
             continue
         phi = cnt.a[0]
-        ent = f.phis.get(phi.key())
+        ent = f.phi(phi.key())
         ops = ent[1] if ent else []
         ctx.check(len(ops) == 2, inst, "anchor", b.path, "the run end has an initial value and one accumulation step", b.where(r))
 
